@@ -17,6 +17,9 @@ pub struct TraitFn {
     pub originally_async: bool,
     /// The default body of a method of an entraited trait
     pub default_body: Option<syn::Block>,
+    /// The type and const parameters of the entraited fn, as arguments to it
+    /// (`_` for the dependency). Nothing says they can be inferred from the call.
+    pub fn_generic_arguments: Option<proc_macro2::TokenStream>,
 }
 
 impl TraitFn {
@@ -74,12 +77,41 @@ impl TraitFnAnalyzer<'_> {
             impl_receiver_kind: self.impl_receiver_kind,
         }
         .convert_fn_to_trait_fn();
+        let fn_generic_arguments = {
+            let deps_param = match &deps {
+                FnDeps::Generic { generic_param, .. } => generic_param.as_ref(),
+                _ => None,
+            };
+            let mut any_explicit = false;
+            let arguments: Vec<_> = input_sig
+                .generics
+                .params
+                .iter()
+                .filter_map(|param| match param {
+                    syn::GenericParam::Type(type_param) if Some(&type_param.ident) == deps_param => {
+                        Some(quote::quote! { _ })
+                    }
+                    syn::GenericParam::Type(syn::TypeParam { ident, .. })
+                    | syn::GenericParam::Const(syn::ConstParam { ident, .. }) => {
+                        any_explicit = true;
+                        Some(quote::quote! { #ident })
+                    }
+                    syn::GenericParam::Lifetime(_) => None,
+                })
+                .collect();
+            if any_explicit {
+                Some(quote::quote! { ::<#(#arguments),*> })
+            } else {
+                None
+            }
+        };
         Ok(TraitFn {
             deps,
             attrs: vec![],
             entrait_sig,
             originally_async: input_sig.asyncness.is_some(),
             default_body: None,
+            fn_generic_arguments,
         })
     }
 }
